@@ -308,7 +308,7 @@ Section Proofs.
       + rewrite Hw, app_nil_r. reflexivity.
       + cbn. rewrite app_nil_r. reflexivity.
       + rewrite total_len_app. change (total_len [p]) with (len p + 0).
-        rewrite Ha, Eb in Hc. change (len (@nil W)) with 0 in Hc.
+        try rewrite Eb in Hc. change (len (@nil W)) with 0 in Hc.
         rewrite enc_len. unfold mac_size in *. lia.
       + apply Forall_app; split; [assumption | constructor; [assumption | constructor]].
     - pose proof (flush_spec (r_snd K W r) rh rb) as (Hs1 & Hs2).
@@ -392,7 +392,8 @@ Section Proofs.
     assert (Hpart : part = h ++ skipN (len h) part).
     { rewrite <- (firstN_skipN _ (len h) part) at 1. f_equal.
       assert (E : firstN (len h) (part ++ rest) = firstN (len h) (h ++ b)) by (rewrite Hsplit; reflexivity).
-      rewrite firstN_app_exact in E. rewrite <- E.
+      rewrite firstN_app_exact in E.
+      transitivity (firstN (len h) (part ++ rest)); [| exact E].
       unfold firstN. rewrite firstn_app.
       replace (N.to_nat (len h) - length part)%nat with 0%nat by (unfold len in *; lia).
       cbn. rewrite app_nil_r. reflexivity. }
